@@ -21,7 +21,7 @@ print = functools.partial(print, flush=True)  # noqa: A001
 from . import boot
 
 PROPS = ["C01", "C02", "C06", "C07", "C09", "C10", "C11", "C18", "C19"]
-RUN_WALL_LIMIT = 300          # seconds, per worker task (watchdog)
+RUN_WALL_LIMIT = 900          # seconds, per run (watchdog; a run normally takes < 5 s)
 MAX_MINIMISED = 3             # violation groups that are minimised + replay-verified per check
 
 
@@ -85,6 +85,14 @@ def execute_plan(mod, plan):
     from . import world as _world
 
     t0 = time.time()
+    if _WORKER.get("poisoned"):
+        # an earlier run in this process ended in a harness error (e.g. a hang): its actor threads
+        # may still be alive and would interfere with this run's storage - nothing that this
+        # process reports from now on can be believed
+        return {"violations": [], "digest": None, "keys": [], "stats": {}, "faults": {},
+                "probes": {}, "steps": 0, "wall": 0.0,
+                "harness_error": "not run: worker poisoned by an earlier harness error ("
+                                 + _WORKER["poisoned"] + ")"}
     try:
         # every run starts in a fresh "process": no module state of the code under test, no
         # filesystem instance cache and no garbage of the previous run survives
@@ -94,6 +102,7 @@ def execute_plan(mod, plan):
     except BaseException as e:  # noqa: BLE001
         out = {"violations": [], "digest": None, "keys": [], "stats": {}, "faults": {},
                "steps": 0, "harness_error": "".join(traceback.format_exception(e))[-3000:]}
+        _WORKER["poisoned"] = type(e).__name__
     out.setdefault("violations", [])
     out.setdefault("keys", [])
     out.setdefault("stats", {})
